@@ -4,31 +4,44 @@
 (* (harness/src/bin/locks.rs stress) against the lock semantics: the       *)
 (* events, in the order the recording sink received them (acquisitions are *)
 (* recorded while the lock is held, releases before it is released), must  *)
-(* respect mutual exclusion and once-only initialisation.                  *)
+(* respect mutual exclusion and once-only initialisation, and a formatting *)
+(* call that begins after a registration completed shows its names.        *)
 (***************************************************************************)
 EXTENDS Naturals, Sequences, FiniteSets, TLC, Json, IOUtils
 
 LRec == ndJsonDeserialize(IOEnv.TRACE)
-VARIABLES i, owner, once
-ltv == <<i, owner, once>>
+VARIABLES i, owner, once, regd, seen
+ltv == <<i, owner, once, regd, seen>>
+\* regd: a register_tags call has returned; seen[t]: regd when thread t's current call began.
+\* A formatting call that begins after a registration has completed must show the registered
+\* names ("end_post"); "end_pre" (the text of the unregistered state) is a stale view;
+\* "end_other" is a text the call never returns when run alone.
+MaxThread == 64
 LocksOf == {"FC", "KV", "FN", "PARAM", "TAGS"}
 Cells  == {"FC", "KV", "FN", "PARAM"}
 
-LTInit == i = 1 /\ owner = [l \in LocksOf |-> 0] /\ once = [c \in Cells |-> 0]
+LTInit == /\ i = 1 /\ owner = [l \in LocksOf |-> 0] /\ once = [c \in Cells |-> 0]
+          /\ regd = FALSE /\ seen = [t \in 0..MaxThread |-> FALSE]
 \* once[c]: 0 new, -1 done, t > 0 being initialised by thread t  (encoded with naturals: done = 100000)
 Done == 100000
 Ev == LRec[i]
 LTNext ==
   /\ i <= Len(LRec) /\ i' = i + 1
   /\ LET t == Ev.t  k == Ev.k  l == Ev.l IN
-     CASE k = "reset" -> owner' = [x \in LocksOf |-> 0] /\ once' = [c \in Cells |-> 0]
-       [] k = "once_enter" -> UNCHANGED <<owner, once>>
-       [] k = "once_run_begin" -> once[l] = 0 /\ once' = [once EXCEPT ![l] = t] /\ UNCHANGED owner
-       [] k = "once_run_end" -> once[l] = t /\ once' = [once EXCEPT ![l] = Done] /\ UNCHANGED owner
-       [] k = "acq" -> /\ owner[l] = 0 /\ owner' = [owner EXCEPT ![l] = t] /\ UNCHANGED once
+     CASE k = "reset" -> /\ owner' = [x \in LocksOf |-> 0] /\ once' = [c \in Cells |-> 0]
+                         /\ regd' = FALSE /\ seen' = [x \in 0..MaxThread |-> FALSE]
+       [] k = "once_enter" -> UNCHANGED <<owner, once, regd, seen>>
+       [] k = "once_run_begin" -> once[l] = 0 /\ once' = [once EXCEPT ![l] = t] /\ UNCHANGED <<owner, regd, seen>>
+       [] k = "once_run_end" -> once[l] = t /\ once' = [once EXCEPT ![l] = Done] /\ UNCHANGED <<owner, regd, seen>>
+       [] k = "acq" -> /\ owner[l] = 0 /\ owner' = [owner EXCEPT ![l] = t] /\ UNCHANGED <<once, regd, seen>>
                        /\ (l \in Cells => (once[l] = Done \/ once[l] = t))
-       [] k = "rel" -> owner[l] = t /\ owner' = [owner EXCEPT ![l] = 0] /\ UNCHANGED once
-       [] k = "blip" -> owner[l] # t /\ UNCHANGED <<owner, once>>
+       [] k = "rel" -> owner[l] = t /\ owner' = [owner EXCEPT ![l] = 0] /\ UNCHANGED <<once, regd, seen>>
+       [] k = "blip" -> owner[l] # t /\ UNCHANGED <<owner, once, regd, seen>>
+       [] k = "begin" -> seen' = [seen EXCEPT ![t] = regd] /\ UNCHANGED <<owner, once, regd>>
+       [] k = "reg_done" -> regd' = TRUE /\ UNCHANGED <<owner, once, seen>>
+       [] k = "end_pre" -> ~seen[t] /\ UNCHANGED <<owner, once, regd, seen>>
+       [] k \in {"end_post", "end_any"} -> UNCHANGED <<owner, once, regd, seen>>
+       [] k = "end_other" -> FALSE
 LTSpec == LTInit /\ [][LTNext]_ltv
 LTAccepted ==
   LET d == TLCGet("stats").diameter IN
